@@ -145,7 +145,22 @@ def build_item(t, item, sp, mem="disk", vp="array"):
     raise ValueError(t)
 
 
-def build(sp, mem="disk", vp="array", links_as="list"):
+VIA = ("setter-list", "setter-tuple", "setter-gen")
+
+
+def _install(b, attr, items, via):
+    """Hand a whole item collection to the block through its list property, in the given container form."""
+    if via == "setter-list":
+        setattr(b, attr, list(items))
+    elif via == "setter-tuple":
+        setattr(b, attr, tuple(items))
+    elif via == "setter-gen":
+        setattr(b, attr, (x for x in list(items)))
+    else:
+        raise ValueError(via)
+
+
+def build(sp, mem="disk", vp="array", links_as="list", via="add"):
     n = lib()
     t = sp["type"]
     fmt = format_enum(t)(sp["format"])
@@ -159,6 +174,9 @@ def build(sp, mem="disk", vp="array", links_as="list"):
             else:
                 b.links = np.array([(int(a), int(c)) for a, c in sp["links"]],
                                    dtype=[("Track1", "<u4"), ("Track2", "<u4")])
+        if via != "add":
+            _install(b, "tracks", [build_item(t, tr, sp, mem) for tr in sp["tracks"]], via)
+            return b
         for tr in sp["tracks"]:
             b.add_track(build_item(t, tr, sp, mem))
         return b
@@ -170,6 +188,9 @@ def build(sp, mem="disk", vp="array", links_as="list"):
     if t == R.T_FORCE3D:
         b = n.f3.ForceTorque3D(sc("frequency"), sc("nFrames"), _mem(sp["vol"], "<f4", mem),
                                _mem(sp["rot"], "<f4", mem), _mem(sp["trans"], "<f4", mem), sc("startTime"), fmt)
+        if via != "add":
+            _install(b, "tracks", [build_item(t, tr, sp, mem) for tr in sp["tracks"]], via)
+            return b
         for tr in sp["tracks"]:
             b.add_track(build_item(t, tr, sp, mem))
         return b
@@ -180,6 +201,9 @@ def build(sp, mem="disk", vp="array", links_as="list"):
         return b
     if t == R.T_PLATCAL:
         b = n.pc.ForcePlatformsCalibrationDataBlock(format=fmt)
+        if via != "add":
+            _install(b, "platforms", [(int(ch), build_item(t, it, sp, mem)) for ch, it in sp["items"]], via)
+            return b
         for ch, it in sp["items"]:
             b.add_platform(build_item(t, it, sp, mem), int(ch))
         return b
